@@ -34,13 +34,13 @@ STUBS = [
     "timelines, phases, registers and devices are concrete per shape; every amplitude, detuning and detuning-map weight is a solver variable "
     "(amplitudes in [0,10], detunings in [-20,20], weights in [0,1])",
     "EOM shapes: Waveform.modulation_buffers replaced by the fixed value (rise_time//2, rise_time//2) so that the timeline stays concrete",
-    "default (noiseless) configuration, sampling_rate = 1",
+    "default (noiseless) configuration; sampling_rate 1 (every integer time) and 0.7 / 0.5 / 0.31 (the times of the emulator's own grid)",
 ]
 FLOAT_MODE = ("R-mode exact reals for amplitudes/detunings/weights; concrete binary64 for e^{-i phi} and interaction strengths, compared "
               "within 1e-6 absolute (+1e-9 relative on interaction strengths)")
 BOUNDS = {"quick": dict(programs=10, atoms="2-3", levels="2-3", times="every integer t in [0,T), T <= 48"),
           "thorough": dict(programs=15, atoms="2-3", levels="2-3", times="every integer t in [0,T), T <= 64")}
-OUTSIDE = ["noise models (random draws, collapse operators)", "sampling_rate < 1 (spline interpolation between samples)",
+OUTSIDE = ["noise models (random draws, collapse operators)", "sampling_rate < 1 between the grid times (spline interpolation)",
            "output modulation", "t = T (the extra sample appended by the emulator)",
            "two pulses with non-zero amplitude at the same time on the same atom and basis",
            "symbolic geometry / Rydberg level (concrete registers: 2D, 3D, permuted ids)", "symbolic phases (C07)"]
@@ -507,7 +507,8 @@ def h_program(shape):
         if "mag" in P:
             seq.set_magnetic_field(*P["mag"])
         l2.run_prefix(inp, seq, P["prog"])
-        em = QutipEmulator.from_sequence(seq)
+        rate = shape.get("rate", 1.0)
+        em = QutipEmulator.from_sequence(seq, sampling_rate=rate)
         orc = Oracle(seq)
         used = orc.used_bases()
         eig = orc.eigen(used)
@@ -534,7 +535,12 @@ def h_program(shape):
                 (diag if k[0] == k[1] else off).append(AND(close(c.re, r.re, tol), close(c.im, r.im, tol)))
             return (AND(*off) if off else True), (AND(*diag) if diag else True)
 
-        for t in range(orc.T):
+        times = [int(round(float(x) * 1000)) for x in em.sampling_times]
+        obs.append(("ham:sampled_times", times[0] == 0 and times[-1] == orc.T and all(a < b for a, b in zip(times, times[1:]))
+                    and (rate != 1.0 or times == list(range(orc.T + 1)))))
+        for t in times:
+            if t >= orc.T:
+                continue
             code = entries_of(em.get_hamiltonian(t))
             ref, scale = orc.hamiltonian(t, eig, used)
             off, diag = compare(code, ref, scale)
@@ -564,7 +570,10 @@ def h_program(shape):
 
 def kernels(tier):
     names = QUICK if tier == "quick" else list(PROGRAMS)
-    return [("ham", dict(program=n)) for n in names]
+    ks = [("ham", dict(program=n)) for n in names]
+    # the Hamiltonian on a coarser grid: at every time of the emulator's own sampling grid it is still the formula
+    sub = [("xy_slm", 0.5), ("ising_all", 0.7)] if tier == "quick" else [(n, r) for n in PROGRAMS for r in (0.5, 0.31)]
+    return ks + [("ham", dict(program=n, rate=r)) for n, r in sub]
 
 
 def harness(kernel, shape):
